@@ -123,6 +123,32 @@ def run(ctx):
         if not abs(dd) <= 1e-7:
             ctx.violation("gmst differs from IAU-1982 by more than 1e-7 rad",
                           {"signature": "C12:iau:%s" % pydt.isoformat(), **base, "impl": g, "spec": ref, "diff": dd})
+    # nanosecond-resolution instants hugging day boundaries (noon = J2000 day boundary, midnight = calendar)
+    for _ in range(ctx.n(60, 600)):
+        y, m, d = ctx.rng.randint(1900, 2100), ctx.rng.randint(1, 12), ctx.rng.randint(1, 28)
+        hh = ctx.rng.choice([0, 12])
+        k = ctx.rng.choice([1, 2, 50, 100, 300, 999, 1000, 123456])
+        base_t = np.datetime64(dt.datetime(y, m, d, hh, 0, 0), "ns")
+        tns = base_t + np.timedelta64(ctx.rng.choice([-k, k]), "ns")
+        arg = tns if ctx.rng.random() < 0.5 else np.array([tns])
+        ns = int(tns.astype("int64"))
+        jd_exact = Fraction(ns, 86400 * 10**9) + Fraction(4881175, 2)        # 2440587.5
+        ctx.case(("ns-boundary", str(tns)))
+        try:
+            with common.time_limit(20):
+                jd = float(np.asarray(astronomy.jdays(arg), dtype=float).ravel()[0])
+                g = float(np.asarray(astronomy.gmst(arg), dtype=float).ravel()[0])
+        except Exception as e:
+            ctx.violation("jdays/gmst raised %s" % type(e).__name__, {"signature": "C12:raise-ns:%s" % type(e).__name__, "instant": str(tns)})
+            continue
+        if not abs(Fraction(jd) - jd_exact) <= Fraction(1, 10**9):
+            ctx.violation("jdays differs from the civil-calendar Julian date by more than 1e-9 day",
+                          {"signature": "C12:jd-ns:%s" % tns, "instant": str(tns), "kind": "scalar" if arg is tns else "array", "impl": jd, "spec": float(jd_exact)})
+        ref = iau82(jd_exact - 2451545)
+        dd = (g - ref + math.pi) % (2 * math.pi) - math.pi
+        if not (0.0 <= g < 2 * math.pi) or not abs(dd) <= 1e-7:
+            ctx.violation("gmst differs from IAU-1982 by more than 1e-7 rad (or is outside [0, 2*pi))",
+                          {"signature": "C12:iau-ns:%s" % tns, "instant": str(tns), "impl": g, "spec": ref, "diff": dd})
     # differences / rate on pairs
     for _ in range(ctx.n(100, 1000)):
         a, b = rand_instant(ctx.rng), rand_instant(ctx.rng)
